@@ -122,6 +122,89 @@ Definition lzp_cigar (bs : bytes) : option (res (list (N * N))) :=
       else cigar_iter src
   end.
 
+(* ---- record/sequence.rs: Sequence::len and Sequence::get(i) (src[i / 2] is a slice index) ---- *)
+Fixpoint nthN (n : N) (l : bytes) : option N :=
+  match l with
+  | [] => None
+  | x :: r => if n =? 0 then Some x else nthN (n - 1) r
+  end.
+
+Definition lzp_seq_len (bs : bytes) : option N :=
+  option_map (fun _ => lz_lseq bs)
+    (lzp_slice (32 + lz_lname bs + 4 * lz_nops bs) ((lz_lseq bs + 1) / 2) bs).
+
+Definition lzp_seq_get (bs : bytes) (i : N) : option (option N) :=
+  match lzp_slice (32 + lz_lname bs + 4 * lz_nops bs) ((lz_lseq bs + 1) / 2) bs with
+  | None => None
+  | Some raw =>
+      if i <? lz_lseq bs then
+        match nthN (i / 2) raw with
+        | Some b => Some (Some (if i mod 2 =? 0 then hi_base b else lo_base b))
+        | None => None
+        end
+      else Some None
+  end.
+
+(* ---- record/data/field/value.rs::decode_value and value/array.rs of the LAZY data view: scalars
+   and strings are read as in the eager decoder; an array first takes its cnt * width raw bytes
+   (decode_raw_array), its Values then decode that buffer element by element ---- *)
+Definition lz_value (ty : N) (bs : bytes) : res (value * bytes) :=
+  if ty =? tyB then
+    match bs with
+    | [] => bad
+    | sub :: r =>
+      match sub_width sub with
+      | None => bad
+      | Some (w, sg) =>
+        match rdW 4 r with
+        | None => bad
+        | Some (cnt, r1) =>
+          match takeN (cnt * N.of_nat w) r1 with
+          | None => bad
+          | Some (buf, r2) =>
+              let* (vs, _) := dec_elems (length buf) w sg cnt buf in Ok (VArr sub vs, r2)
+          end
+        end
+      end
+    end
+  else match num_width ty with
+       | Some (w, sg) => let* (v, r) := dec_num w sg bs in Ok (VNum ty v, r)
+       | None =>
+           if (ty =? tyZ) || (ty =? tyH) then
+             match split_nul bs with Some (s, r) => Ok (VStr ty s, r) | None => bad end
+           else bad
+       end.
+
+(* record/data.rs::Data::iter: the fields yielded before the first error, and whether an error
+   was yielded (no duplicate check, no CG removal) *)
+Fixpoint lz_fields (fuel : nat) (bs : bytes) : list (tag * value) * bool :=
+  match bs with
+  | [] => ([], false)
+  | _ =>
+    match fuel with
+    | O => ([], true)
+    | S f =>
+      match bs with
+      | t0 :: t1 :: ty :: r =>
+          match lz_value ty r with
+          | Ok (v, r') => let (fs, e) := lz_fields f r' in (((t0, t1), v) :: fs, e)
+          | Err _ => ([], true)
+          end
+      | _ => ([], true)
+      end
+    end
+  end.
+
+Definition lzp_data (bs : bytes) : option (list (tag * value) * bool) :=
+  option_map (fun raw => lz_fields (length raw) raw) (lzp_data_raw bs).
+
+(* Data::get(tag): the first field with that tag, or the first error met before it *)
+Definition data_get (fs : list (tag * value) * bool) (t : tag) : option (res value) :=
+  match find_tag t (fst fs) with
+  | Some v => Some (Ok v)
+  | None => if snd fs then Some bad else None
+  end.
+
 (* the head fields never panic once the view exists *)
 Record lazy_view := mkLazy {
   v_name : option (option bytes);
